@@ -2,24 +2,58 @@ package recovery
 
 import (
 	"encoding/json"
+	"fmt"
 	"io"
+	"slices"
 )
 
+// ListFiles returns the URIs of the files referenced by the latest checkpoint in
+// a checkpoints document.
 func ListFiles(reader io.Reader) ([]string, error) {
-	// Decode reader data into checkpoint list JSON document
-	data, err := io.ReadAll(reader)
+	listDoc, err := readCheckpointListDocument(reader)
 	if err != nil {
-		return nil, err
-	}
-
-	listDoc := checkpointListDocument{}
-	if err := json.Unmarshal(data, &listDoc); err != nil {
 		return nil, err
 	}
 
 	// Always use the latest checkpoint
 	ckpt := listDoc.Checkpoints[len(listDoc.Checkpoints)-1]
 
+	return ckpt.fileURIs(), nil
+}
+
+// ListCheckpointFiles returns the URIs of the files referenced by the
+// checkpoint with the given ID in a checkpoints document. The document may
+// already contain later checkpoints, so this is the same lookup that
+// LoadCheckpointList does for a CheckpointHandle.
+func ListCheckpointFiles(reader io.Reader, ckptID uint64) ([]string, error) {
+	listDoc, err := readCheckpointListDocument(reader)
+	if err != nil {
+		return nil, err
+	}
+
+	ckptIndex := slices.IndexFunc(listDoc.Checkpoints, func(doc checkpointDocument) bool {
+		return doc.ID == ckptID
+	})
+	if ckptIndex == -1 {
+		return nil, fmt.Errorf("checkpoint ID %d not found in the checkpoints document", ckptID)
+	}
+
+	return listDoc.Checkpoints[ckptIndex].fileURIs(), nil
+}
+
+// Decode reader data into checkpoint list JSON document
+func readCheckpointListDocument(reader io.Reader) (checkpointListDocument, error) {
+	listDoc := checkpointListDocument{}
+	data, err := io.ReadAll(reader)
+	if err != nil {
+		return listDoc, err
+	}
+	err = json.Unmarshal(data, &listDoc)
+	return listDoc, err
+}
+
+// All WAL and table files that the checkpoint needs.
+func (ckpt checkpointDocument) fileURIs() []string {
 	fileNames := []string{}
 
 	// Add WAL file names to output
@@ -34,5 +68,5 @@ func ListFiles(reader io.Reader) ([]string, error) {
 		}
 	}
 
-	return fileNames, nil
+	return fileNames
 }
